@@ -28,6 +28,9 @@ type Grp struct {
 	Inner []Sub
 }
 
+// Level is a named string type (payload field Lv).
+type Level string
+
 // Rec is the main collection type of the drivers.
 type Rec struct {
 	sod.Item
@@ -49,14 +52,16 @@ type Rec struct {
 	// put on it by a custom schema (custom schema 7); nil everywhere else
 	R *string
 	// payload (opaque to the specification)
-	L []int
-	M map[string][]*Sub
-	Q *int
-	I interface{}
-	B []byte
-	G []Grp
-	H map[string]Grp
-	J [][]int
+	D  time.Duration // named basic types: their descriptor in schema.json is the type's name
+	Lv Level
+	L  []int
+	M  map[string][]*Sub
+	Q  *int
+	I  interface{}
+	B  []byte
+	G  []Grp
+	H  map[string]Grp
+	J  [][]int
 }
 
 // RecPlain has the same shape with the top-level non-unique indexes removed.
@@ -70,20 +75,22 @@ type RecPlain struct {
 	N string `sod:"upper"`
 	T time.Time
 	Emb
-	P *Sub
-	Z string
-	V int
-	W string `sod:"lower"`
-	O int    `json:",omitempty"`
-	R *string
-	L []int
-	M map[string][]*Sub
-	Q *int
-	I interface{}
-	B []byte
-	G []Grp
-	H map[string]Grp
-	J [][]int
+	P  *Sub
+	Z  string
+	V  int
+	W  string `sod:"lower"`
+	O  int    `json:",omitempty"`
+	R  *string
+	D  time.Duration
+	Lv Level
+	L  []int
+	M  map[string][]*Sub
+	Q  *int
+	I  interface{}
+	B  []byte
+	G  []Grp
+	H  map[string]Grp
+	J  [][]int
 }
 
 // Other is a second collection type (wrong-type batches, multi-collection Close).
@@ -233,6 +240,7 @@ func ip(i int) *int { return &i }
 func setPayload(r *Rec, n int) {
 	r.L, r.M, r.Q, r.I, r.B = nil, nil, nil, nil, nil
 	r.G, r.H, r.J = nil, nil, nil
+	r.D, r.Lv = time.Duration(n%3)*time.Second, Level([]string{"", "low", "high"}[n%3])
 	switch n % NPayloads {
 	case 0:
 	case 1:
@@ -280,7 +288,7 @@ func setPayload(r *Rec, n int) {
 // process (traces recorded by another build of the harness, e.g. the golden corpus, stay comparable):
 // the first 28 bits of its SHA-256.  (P's nil-ness is a separate field, Pn.)
 func payloadID(r *Rec) int {
-	b, err := json.Marshal([]interface{}{r.L, r.M, r.Q, r.I, r.B, r.G, r.H, r.J})
+	b, err := json.Marshal([]interface{}{r.L, r.M, r.Q, r.I, r.B, r.G, r.H, r.J, r.D, r.Lv})
 	if err != nil {
 		b = []byte("unmarshalable:" + err.Error())
 	}
